@@ -155,17 +155,25 @@ class C14(runner.Prop):
         'observation uses only public treespec API',
         'unregister / re-register histories restore the universe registrations at the end of the case',
     ]
-    tree_keys = ('t',)
+    tree_keys = ('t', 'u')
 
     def budget(self, tier):
         return 200 if tier == "quick" else 3000
 
     def strategy(self, tier):
         ml = 10 if tier == 'quick' else 16
-        return st.fixed_dictionaries({
-            't': gen.tree_descs(ml), 'cfg': gen.configs(),
-            'actions': st.lists(st.sampled_from(ACTIONS), min_size=1, max_size=6),
-            'seed': st.integers(0, 3), 'victim': st.sampled_from(sorted(U.VICTIMS))})
+
+        @st.composite
+        def cases(draw):
+            t = draw(gen.tree_descs(ml))
+            u, _e = gen.near_miss(draw, t)          # a mismatching operand for the binary operations
+            if draw(st.booleans()):
+                u = gen.dict_variant(draw, u)
+            return {'t': t, 'u': u, 'cfg': draw(gen.configs()),
+                    'actions': draw(st.lists(st.sampled_from(ACTIONS), min_size=1, max_size=6)),
+                    'seed': draw(st.integers(0, 3)), 'victim': draw(st.sampled_from(sorted(U.VICTIMS)))}
+
+        return cases()
 
     def shrink_extra(self, case):
         for i in range(len(case['actions'])):
@@ -242,11 +250,14 @@ class C14(runner.Prop):
         kw = gen.kw(cfg)
         tree = gen.build(case['t'])
         other = gen.build(case['t'])
+        mis = gen.build(case.get('u', case['t']))
         with gen.ModeCtx(cfg):
             leaves, spec = optree.tree_flatten(tree, **kw)
+            mspec = optree.tree_structure(mis, **kw)
             leaves_copy = list(leaves)
-            s_tree, s_other = snapshot(tree), snapshot(other)
+            s_tree, s_other, s_mis = snapshot(tree), snapshot(other), snapshot(mis)
             o_spec = full_observe(spec)
+            o_mspec = full_observe(mspec)
             ident = lambda x, *r: x  # noqa: E731
             n = spec.num_leaves
             leafspec = optree.treespec_leaf(none_is_leaf=cfg['nil'])
@@ -288,6 +299,18 @@ class C14(runner.Prop):
                 'spec.is_prefix': lambda: (spec.is_prefix(spec), spec <= spec, spec == spec, spec < spec),
                 'spec.inspect': lambda: (spec.paths(), spec.accessors(), spec.entries(), spec.children(), spec.one_level(),
                                          repr(spec), hash(spec), len(spec)),
+                # mismatching operands (error paths must not touch their operands either)
+                'mismatch/broadcast_to_common_suffix': lambda: spec.broadcast_to_common_suffix(mspec),
+                'mismatch/broadcast_to_common_suffix_rev': lambda: mspec.broadcast_to_common_suffix(spec),
+                'mismatch/is_prefix': lambda: (spec.is_prefix(mspec), mspec.is_prefix(spec), spec == mspec, spec < mspec, spec >= mspec),
+                'mismatch/flatten_up_to': lambda: spec.flatten_up_to(mis),
+                'mismatch/flatten_up_to_rev': lambda: mspec.flatten_up_to(tree),
+                'mismatch/tree_map': lambda: optree.tree_map(ident, tree, mis, **kw),
+                'mismatch/tree_broadcast_common': lambda: optree.tree_broadcast_common(tree, mis, **kw),
+                'mismatch/tree_broadcast_prefix': lambda: optree.tree_broadcast_prefix(mis, tree, **kw),
+                'mismatch/prefix_errors': lambda: optree.prefix_errors(tree, mis, **kw),
+                'mismatch/compose': lambda: spec.compose(mspec),
+                'mismatch/from_collection': lambda: optree.treespec_from_collection([spec, mspec], none_is_leaf=cfg['nil'], namespace=cfg['ns']),
                 'pickle': lambda: pickle.loads(pickle.dumps(spec)),
                 'copy': lambda: (copy.copy(spec), copy.deepcopy(spec)),
                 'treespec_from_collection': lambda: optree.treespec_from_collection([spec, spec], none_is_leaf=cfg['nil'], namespace=cfg['ns']),
@@ -299,13 +322,13 @@ class C14(runner.Prop):
                     fn()
                 except Exception:  # noqa: BLE001
                     pass   # legality is other properties' business; mutation is ours
-                if snapshot(tree) != s_tree or snapshot(other) != s_other:
+                if snapshot(tree) != s_tree or snapshot(other) != s_other or snapshot(mis) != s_mis:
                     ctx.fail(f'input_mutated/{name}', 'an input tree was modified')
                     return
                 if len(leaves) != len(leaves_copy) or any(a is not b for a, b in zip(leaves, leaves_copy)):
                     ctx.fail(f'leaves_mutated/{name}', 'the leaf list passed in was modified')
                     return
-                d = obs_diff(full_observe(spec), o_spec)
+                d = obs_diff(full_observe(spec), o_spec) or obs_diff(full_observe(mspec), o_mspec)
                 if d:
                     ctx.fail(f'spec_mutated/{name}', d)
                     return
